@@ -89,12 +89,14 @@ def make_prop_val_node(
         if types is not None:
 
             def setter(self, value):
-                nonlocal types
-                if isinstance(types, tuple) and len(types) == 0:
-                    types = type(self)
-                if not isinstance(value, types):
+                # an empty tuple means "the class of this instance"; decided per call:
+                # rebinding ``types`` here would pin it to the first instance ever used
+                allowed = types
+                if isinstance(allowed, tuple) and len(allowed) == 0:
+                    allowed = type(self)
+                if not isinstance(value, allowed):
                     raise TypeError(
-                        f"{func.__name__} must be of type: {types}. {value} given."
+                        f"{func.__name__} must be of type: {allowed}. {value} given."
                     )
                 if (
                     base_type is not None
@@ -153,11 +155,13 @@ def make_prop_pointer(
         if types is not None:
 
             def setter(self, value):
-                nonlocal types
-                if isinstance(types, tuple) and len(types) == 0:
-                    types = type(self)
-                if not isinstance(value, types):
-                    raise TypeError(f"{func.__name__} must be of type: {types}")
+                # an empty tuple means "the class of this instance"; decided per call:
+                # rebinding ``types`` here would pin it to the first instance ever used
+                allowed = types
+                if isinstance(allowed, tuple) and len(allowed) == 0:
+                    allowed = type(self)
+                if not isinstance(value, allowed):
+                    raise TypeError(f"{func.__name__} must be of type: {allowed}")
                 if base_type is not None and not isinstance(value, base_type):
                     value = base_type(value)
                 if validator:
